@@ -61,19 +61,22 @@ def data_byte(name):
 
 
 def check_edges(item):
-    """('edges', shape, used_bits, polarity, block_polarity, zero_mode, nbytes)"""
-    _, shape, used_bits, polarity, bpol, zero_mode, nbytes = item
+    """('edges', shape, used_bits, polarity, block_polarity, zero_mode, nbytes[, (pulses per 0 bit, pulses per 1 bit)])"""
+    _, shape, used_bits, polarity, bpol, zero_mode, nbytes = item[:7]
+    nz, no = item[7] if len(item) > 7 else (2, 2)
     st = Stats()
     res = new_res()
     import skoolkit.tape as tape
     name = 'get_edges %s used_bits=%d polarity=%d block polarity=%r %s %d byte(s)' % (shape, used_bits, polarity, bpol, 'zero-length pulses allowed' if zero_mode else 'non-zero pulses', nbytes)
+    if (nz, no) != (2, 2):
+        name += ' %d/%d pulses per 0/1 bit' % (nz, no)
 
     def mk_block(k, with_data, pulses_spec):
         lo = 0 if zero_mode else 1
         pulses = tuple((cnt, sym_int('p%d_%d' % (k, j), 0, 65535)) for j, cnt in enumerate(pulses_spec))
         if with_data:
-            zero = (sym_int('z%d_0' % k, lo, 65535), sym_int('z%d_1' % k, lo, 65535))
-            one = (sym_int('o%d_0' % k, lo, 65535), sym_int('o%d_1' % k, lo, 65535))
+            zero = tuple(sym_int('z%d_%d' % (k, i), lo, 65535) for i in range(nz))
+            one = tuple(sym_int('o%d_%d' % (k, i), lo, 65535) for i in range(no))
             data = [data_byte('d%d_%d' % (k, j)) for j in range(nbytes)]
             tail = sym_int('tail%d' % k, 0, 65535)
             t = tape.TapeBlockTimings(pulses, zero, one, sym_int('pause%d' % k, 0, 4000000), used_bits, False, tail, bpol)
@@ -149,18 +152,18 @@ def check_edges(item):
                             bits = 8 if j < nb - 1 else used_bits
                             for bit in range(bits):
                                 isone = (byte & (0x80 >> bit)) != 0
-                                for pi in range(2):
+                                for pi in range(no if isone else nz):
                                     if k + 1 >= len(edges):
                                         structural.append('edge list ends inside the data of block %d' % (bi + 1))
                                         break
                                     dist = edges[k + 1] - edges[k]
-                                    want_one, want_zero = tm.one[pi], tm.zero[pi]
+                                    want = (tm.one if isone else tm.zero)[pi]
                                     c = isone if isinstance(isone, bool) else None
                                     if bare and k == s_:
                                         # first pulse after the pause: its edge is at (time the data begins) + width
-                                        diffs.append(ne(edges[k + 1], t + (want_one if c else want_zero)))
+                                        diffs.append(ne(edges[k + 1], t + want))
                                     else:
-                                        diffs.append(ne(dist, want_one if c else want_zero))
+                                        diffs.append(ne(dist, want))
                                     names.append('bit %d of byte %d of block %d is not encoded by its pulse widths' % (bit, j, bi + 1))
                                     k += 1
                         tailz = tm.tail
@@ -182,8 +185,8 @@ def check_edges(item):
                     bits = 8 if j < nb - 1 else used_bits
                     for bit in range(bits):
                         w = tm.one if (byte & (0x80 >> bit)) else tm.zero
-                        t = t + w[0]
-                        t = t + w[1]
+                        for x in w:
+                            t = t + x
                 t = t + tm.tail
             if bi + 1 < len(blocks):
                 t = t + tm.pause
@@ -366,13 +369,14 @@ def replay(case):
     vals = case.get('vals')
     if vals is None:
         return False, 'no input'
-    _, shape, used_bits, polarity, bpol, zero_mode, nbytes = case['item']
+    _, shape, used_bits, polarity, bpol, zero_mode, nbytes = case['item'][:7]
+    nz, no = case['item'][7] if len(case['item']) > 7 else (2, 2)
     g = lambda n, dflt=0: vals.get(n, dflt)
 
     def mk_block(k, with_data, pulses_spec):
         pulses = tuple((cnt, g('p%d_%d' % (k, j))) for j, cnt in enumerate(pulses_spec))
         if with_data:
-            t = tape.TapeBlockTimings(pulses, (g('z%d_0' % k, 1), g('z%d_1' % k, 1)), (g('o%d_0' % k, 1), g('o%d_1' % k, 1)), g('pause%d' % k), used_bits, False, g('tail%d' % k), bpol)
+            t = tape.TapeBlockTimings(pulses, tuple(g('z%d_%d' % (k, i), 1) for i in range(nz)), tuple(g('o%d_%d' % (k, i), 1) for i in range(no)), g('pause%d' % k), used_bits, False, g('tail%d' % k), bpol)
             data = [g('d%d_%d' % (k, j)) for j in range(nbytes)]
         else:
             t = tape.TapeBlockTimings(pulses, None, None, g('pause%d' % k), 8, False, 0, bpol)
@@ -408,7 +412,7 @@ def replay(case):
                     bits = 8 if j < len(blk.data) - 1 else used_bits
                     for bit in range(bits):
                         w = tm.one if byte & (0x80 >> bit) else tm.zero
-                        for pi in range(2):
+                        for pi in range(len(w)):
                             if k + 1 >= len(edges) or edges[k + 1] - edges[k] != w[pi]:
                                 bad.append('bit %d of byte %d of block %d mis-encoded' % (bit, j, bi + 1))
                             k += 1
@@ -442,6 +446,11 @@ def main():
                         if zero_mode and (ub not in (1, 8) or shape == 'data+data' or (args.tier == 'quick' and (bpol is not None or shape != 'data'))):
                             continue      # zero-length-pulse merging multiplies paths (each bit pulse forks on == 0): one block only
                         items.append(('edges', shape, ub, polarity, bpol, zero_mode, 1 if (shape == 'data+data' or zero_mode) else 2 if args.tier == 'thorough' or ub in (1, 7, 8) else 1))
+    # bits encoded by different numbers of pulses (PZX DATA blocks and TZX generalized data allow it)
+    for counts in ((1, 2), (2, 3), (3, 1)):
+        for ub in ((1, 3, 8) if args.tier == 'quick' else range(1, 9)):
+            for bpol in (None, 1):
+                items.append(('edges', 'data', ub, 0, bpol, False, 1 if args.tier == 'quick' else 2, counts))
     items += [('files', n) for n in ((1, 2) if args.tier == 'quick' else (1, 2, 3))]
     if args.only:
         items = [i for i in items if args.only in harness.item_name(i)]
